@@ -389,6 +389,11 @@ type c10Cmp struct {
 	seen     map[[3]uintptr]bool
 	fail     string
 	detail   string
+	// round 8 (c10_r8.go): the storage of slices is linked by address RANGES instead of
+	// element by element and scalar elements are compared without reflect - the same
+	// relation, affordable on containers of 200000 elements after every operation
+	fast bool
+	regs []c10R8Region
 }
 
 func newC10Cmp() *c10Cmp {
@@ -403,6 +408,7 @@ func (c *c10Cmp) clone() *c10Cmp {
 	for k, v := range c.m2l {
 		n.m2l[k] = v
 	}
+	n.fast, n.regs = c.fast, append([]c10R8Region(nil), c.regs...)
 	return n
 }
 
@@ -442,6 +448,9 @@ func (c *c10Cmp) cmp(l, m reflect.Value, path string) bool {
 		if l.Cap() != m.Cap() {
 			return c.bad("cap-mismatch", path, fmt.Sprintf("cap %d, model %d (len %d)", l.Cap(), m.Cap(), l.Len()))
 		}
+		if c.fast {
+			return c.fastSlice(l, m, path)
+		}
 		if l.Cap() > 0 {
 			key := [3]uintptr{l.Pointer(), m.Pointer(), uintptr(l.Len())}
 			if c.seen[key] {
@@ -473,6 +482,11 @@ func (c *c10Cmp) cmp(l, m reflect.Value, path string) bool {
 			c.seen[key] = true
 			if !c.link(l.Pointer(), m.Pointer(), path) {
 				return false
+			}
+		}
+		if c.fast {
+			if done, ok := c.fastMap(l, m, path); done {
+				return ok
 			}
 		}
 		it := m.MapRange()
@@ -588,8 +602,10 @@ type c10Hist struct {
 	nMut  int
 	nErr  int
 	dead  bool
-	facts []c10Factory // script functions returning a literal (c10_lit.go)
-	host  *c10R7Host   // what the host functions of c10_r7.go received
+	facts []c10Factory    // script functions returning a literal (c10_lit.go)
+	fast  bool            // round 8: range-linking walker (c10_r8.go)
+	ctx   context.Context // round 8: operations run under this context when set
+	host  *c10R7Host      // what the host functions of c10_r7.go received
 }
 
 func newC10Hist(c *wk.Case) *c10Hist {
@@ -754,6 +770,7 @@ func (h *c10Hist) viol(op *c10Op, class, detail string) {
 // compareState walks every variable of the live environment against the model.
 func (h *c10Hist) compareState() (*c10Cmp, bool) {
 	cm := newC10Cmp()
+	cm.fast = h.fast
 	for _, name := range h.names {
 		lv, err := h.env.Get(name)
 		if err != nil {
@@ -786,15 +803,17 @@ func (h *c10Hist) exec(op *c10Op) bool {
 		expired := ctx.Err() != nil
 		cancel()
 		if expired {
-			h.log = append(h.log, op.src)
+			h.log = append(h.log, c10R8Clip(op.src, 4000))
 			c.Inconclusive("go-call-never-signalled", "op `"+op.src+"`: "+ank.ErrText(o.Err), h.input(op))
 			h.dead = true
 			return false
 		}
+	} else if h.ctx != nil {
+		o = ank.ExecCtx(h.ctx, h.env, op.src)
 	} else {
 		o = ank.Exec(h.env, op.src)
 	}
-	h.log = append(h.log, op.src)
+	h.log = append(h.log, c10R8Clip(op.src, 4000))
 	c.Events(1)
 	c.Tag("op:"+op.opk+":"+op.ck, "place:"+op.pk)
 	if op.itag != "" {
@@ -3377,7 +3396,7 @@ func init() {
 			}
 			return fw.Plan{
 				Level: "exploration",
-				Rule:  "one evaluation = one history: a fresh environment, 3-8 container variables (one of 17 profiles) and 10-40 operations, each its own vm.Execute call; after every operation every variable is fetched with env.Get and walked against a native Go model (types, contents, len, cap, storage sharing through a live<->model element-address bijection); containers include typed numeric slices of eight element types (int64, float64, int32, byte, float32, uint64, uint, uint32), maps with byte / uint64 keys and uint64 values, a struct with a field of every numeric kind the script can name, nil typed maps / nil typed slices (zero elements of make([]map..) / make([][]T..), names and struct fields bound to nil) and slice expressions as the left operand of a store; struct values of five shapes side by side (the same field names at other positions, a two-field shape, anonymous Go structs bound by the host through a pointer; fields of other shapes are unknown fields); in 40% of the histories with an untyped slice 1-2 script functions returning a random nested literal (lists, maps, typed literals, depth <= 3) are defined once and called again and again, and loops evaluate a literal in their body 2-4 times with in-place stores (`=`, `+= 1`) into inner containers - the Go model builds fresh storage for every evaluation of a literal; about 5% of the operations execute ONE assignment statement with a nested target once more with other operands ((x[i])[j] = v, x[i][j] = v, (x[i]).k1 = v, (x[i])[j] += 1, (x[i])[j]++, with and without parentheses around the container): ten script functions of the prelude that every history calls again and again on the elements of its lists of lists / maps / strings, and loops of 2-4 passes over one such statement (four spellings) - the k-th execution stores into the container its operands designate at the k-th execution; struct values are put into untyped lists and maps (`a[i] = c10mkS(ts[i:j], e)`: the slice field shares storage, and often spare capacity, with a variable) and their slice / map fields are containers for every operation; an operation the Go model rejects must report an error and leave every container unchanged. Values stored into a numeric slot are drawn in 30-75% of the draws from the ends of the kinds' ranges (2^7..2^64 +- a little as integers and floats, floats in [2^63, 2^64), negative fractions, host-typed numbers no literal spells such as uint64 above MaxInt64 and MinInt64), byte / rune slots also get strings (ASCII, empty, several characters, one character of 2-3 bytes, single bytes >= 0x80 cut out of a string with s[i:i+1]); 4% of the operations are `p[i] = p[i]` (an in-range index changes nothing) or `+` / `+=` with a map as the left operand (an error). Phase conv is the full matrix: 14 slot kinds (uint64, uint, uint32, uint16, byte, int64, int, rune, int16, int8, float64, float32, string, bool) x 5 groups of values (28 integers, 42 floats, 19 strings, 10 host-typed numbers, 7 values of other kinds) x 13 ways of storing (index store plain / through a call / through a slice expression / below an untyped list and through the shared nested-target statements, store at index len with and without spare capacity, `+=`, `= +`, `+ [v, v]`, append as an expression and through a call, map value by index / member / call, map key, struct field, slice in a struct field, typed slice and map literals with the value as element, value and key), each on fresh containers followed by a read-back; the signature names slot kind and value kind. Containers that TRAVEL (c10_r7.go): phase pass = 17 container kinds (untyped list with and without spare capacity, typed slice, slice expressions, list / map held by a list element, untyped / empty / typed map, slice and map in a struct field, map in an element of a typed slice of maps - stored as it is and converted from {} -, nil typed map, slice in the field of a struct value held by a list element, string) x 38 ways of reaching another holder x 4 forms: as the argument of a call - script functions of 1, 3 and 5 parameters (direct-call path and reflect.Call path), variadic tail (first / second position) and `p...` spread, anonymous functions of one and two parameters, functions held by a list element / a map entry, Go functions of the host with an interface parameter, a parameter of exactly the container's type, a variadic tail and a spread - called directly, deferred (`defer f(p)` inside an anonymous function, a named function, a function value, an if block, a loop body) and started with go (the callee signals on a channel, the caller waits: no timing); and as a value - parentheses, multiple assignment (both positions), var, both arms of ?:, ??, list / map literal and out again (member and index), channel send / receive, for-in over a list / a map, result of a script function (one / two results), of a closure, of a closure over a parameter, assignment inside a closure / a deferred closure / a go-started closure / a switch case / an if block, a typed channel, result of a Go function. The receiver is bound to a name; the Go model binds that name to the SAME slice header / map, and the walker's address bijection shows at once whether storage is still shared; stores and reads through both holders follow. later-store operations (7 callee kinds x defer (3-5 wrappers) / go x 8 index pairs per container kind): the callee of a deferred / go call stores l[i] = v and reads l[j] when it runs, the caller stores p[j] = w AFTER the defer / go statement (for go: the goroutine waits on a channel for the caller's store, the caller for the goroutine's): both stores must be in the one container, the callee must read w. Phase slots = 12 kinds of typed MAP slot (element of make([]map[string]int64, n) stored by index / through a call / at index len / by += / through a slice expression, entry of a map of maps by member / index / call, map field of a script-made and of a host struct, inside a typed slice / map literal) x 17 sources (empty and non-empty untyped literal, a literal with converting values, names bound to an empty / non-empty / emptied untyped map, empty make / literal / names of another map type, names of the slot's own type, nil, a nil map of another type directly and through a name, two unconvertible maps) x 6 variants: store, `slot == nil` / `!= nil`, len, the slot's content bound to a name (14 of the ways above in rotation, every call form), a key stored through that name (index / member / through a call) and read through the slot, a second name, a store through the slot expression read through both names, delete through a name, a store into the source (a map of another type shares nothing with the slot, one of the slot's type IS the slot's map); the Go parameter map[string]int64 of a host function handed each literal source; slice slots (element of make([][]int64, n), slice field) x 9 sources (nil, [], lists, nil slices of another type directly and through a name, an empty []float64 with capacity, the slot's own type). In the random histories 6% of the operations are a pass (any way / form / place), a later-store or `p == nil` / `p != nil`; values drawn for a typed map slot are in 60% of the draws maps of ANOTHER type ({}; one-entry literals; make(map[string]interface); names bound to untyped / other-typed maps whatever they hold; nil elements of slices of maps of another type; an unconvertible map); maps of maps and slices of map[string]int64 are container variables (3 more profiles), entries of a typed map of maps are places. A history is non-trivial when >=3 operations ran and >=1 mutated a container; distinct = distinct operation text.",
+				Rule:  "one evaluation = one history: a fresh environment, 3-8 container variables (one of 17 profiles) and 10-40 operations, each its own vm.Execute call; after every operation every variable is fetched with env.Get and walked against a native Go model (types, contents, len, cap, storage sharing through a live<->model element-address bijection); containers include typed numeric slices of eight element types (int64, float64, int32, byte, float32, uint64, uint, uint32), maps with byte / uint64 keys and uint64 values, a struct with a field of every numeric kind the script can name, nil typed maps / nil typed slices (zero elements of make([]map..) / make([][]T..), names and struct fields bound to nil) and slice expressions as the left operand of a store; struct values of five shapes side by side (the same field names at other positions, a two-field shape, anonymous Go structs bound by the host through a pointer; fields of other shapes are unknown fields); in 40% of the histories with an untyped slice 1-2 script functions returning a random nested literal (lists, maps, typed literals, depth <= 3) are defined once and called again and again, and loops evaluate a literal in their body 2-4 times with in-place stores (`=`, `+= 1`) into inner containers - the Go model builds fresh storage for every evaluation of a literal; about 5% of the operations execute ONE assignment statement with a nested target once more with other operands ((x[i])[j] = v, x[i][j] = v, (x[i]).k1 = v, (x[i])[j] += 1, (x[i])[j]++, with and without parentheses around the container): ten script functions of the prelude that every history calls again and again on the elements of its lists of lists / maps / strings, and loops of 2-4 passes over one such statement (four spellings) - the k-th execution stores into the container its operands designate at the k-th execution; struct values are put into untyped lists and maps (`a[i] = c10mkS(ts[i:j], e)`: the slice field shares storage, and often spare capacity, with a variable) and their slice / map fields are containers for every operation; an operation the Go model rejects must report an error and leave every container unchanged. Values stored into a numeric slot are drawn in 30-75% of the draws from the ends of the kinds' ranges (2^7..2^64 +- a little as integers and floats, floats in [2^63, 2^64), negative fractions, host-typed numbers no literal spells such as uint64 above MaxInt64 and MinInt64), byte / rune slots also get strings (ASCII, empty, several characters, one character of 2-3 bytes, single bytes >= 0x80 cut out of a string with s[i:i+1]); 4% of the operations are `p[i] = p[i]` (an in-range index changes nothing) or `+` / `+=` with a map as the left operand (an error). Phase conv is the full matrix: 14 slot kinds (uint64, uint, uint32, uint16, byte, int64, int, rune, int16, int8, float64, float32, string, bool) x 5 groups of values (28 integers, 42 floats, 19 strings, 10 host-typed numbers, 7 values of other kinds) x 13 ways of storing (index store plain / through a call / through a slice expression / below an untyped list and through the shared nested-target statements, store at index len with and without spare capacity, `+=`, `= +`, `+ [v, v]`, append as an expression and through a call, map value by index / member / call, map key, struct field, slice in a struct field, typed slice and map literals with the value as element, value and key), each on fresh containers followed by a read-back; the signature names slot kind and value kind. Containers that TRAVEL (c10_r7.go): phase pass = 17 container kinds (untyped list with and without spare capacity, typed slice, slice expressions, list / map held by a list element, untyped / empty / typed map, slice and map in a struct field, map in an element of a typed slice of maps - stored as it is and converted from {} -, nil typed map, slice in the field of a struct value held by a list element, string) x 38 ways of reaching another holder x 4 forms: as the argument of a call - script functions of 1, 3 and 5 parameters (direct-call path and reflect.Call path), variadic tail (first / second position) and `p...` spread, anonymous functions of one and two parameters, functions held by a list element / a map entry, Go functions of the host with an interface parameter, a parameter of exactly the container's type, a variadic tail and a spread - called directly, deferred (`defer f(p)` inside an anonymous function, a named function, a function value, an if block, a loop body) and started with go (the callee signals on a channel, the caller waits: no timing); and as a value - parentheses, multiple assignment (both positions), var, both arms of ?:, ??, list / map literal and out again (member and index), channel send / receive, for-in over a list / a map, result of a script function (one / two results), of a closure, of a closure over a parameter, assignment inside a closure / a deferred closure / a go-started closure / a switch case / an if block, a typed channel, result of a Go function. The receiver is bound to a name; the Go model binds that name to the SAME slice header / map, and the walker's address bijection shows at once whether storage is still shared; stores and reads through both holders follow. later-store operations (7 callee kinds x defer (3-5 wrappers) / go x 8 index pairs per container kind): the callee of a deferred / go call stores l[i] = v and reads l[j] when it runs, the caller stores p[j] = w AFTER the defer / go statement (for go: the goroutine waits on a channel for the caller's store, the caller for the goroutine's): both stores must be in the one container, the callee must read w. Phase slots = 12 kinds of typed MAP slot (element of make([]map[string]int64, n) stored by index / through a call / at index len / by += / through a slice expression, entry of a map of maps by member / index / call, map field of a script-made and of a host struct, inside a typed slice / map literal) x 17 sources (empty and non-empty untyped literal, a literal with converting values, names bound to an empty / non-empty / emptied untyped map, empty make / literal / names of another map type, names of the slot's own type, nil, a nil map of another type directly and through a name, two unconvertible maps) x 6 variants: store, `slot == nil` / `!= nil`, len, the slot's content bound to a name (14 of the ways above in rotation, every call form), a key stored through that name (index / member / through a call) and read through the slot, a second name, a store through the slot expression read through both names, delete through a name, a store into the source (a map of another type shares nothing with the slot, one of the slot's type IS the slot's map); the Go parameter map[string]int64 of a host function handed each literal source; slice slots (element of make([][]int64, n), slice field) x 9 sources (nil, [], lists, nil slices of another type directly and through a name, an empty []float64 with capacity, the slot's own type). In the random histories 6% of the operations are a pass (any way / form / place), a later-store or `p == nil` / `p != nil`; values drawn for a typed map slot are in 60% of the draws maps of ANOTHER type ({}; one-entry literals; make(map[string]interface); names bound to untyped / other-typed maps whatever they hold; nil elements of slices of maps of another type; an unconvertible map); maps of maps and slices of map[string]int64 are container variables (3 more profiles), entries of a typed map of maps are places. A history is non-trivial when >=3 operations ran and >=1 mutated a container; distinct = distinct operation text." + c10R8Rule,
 				Assumptions: []string{
 					"Go's own slice/map/string operations (through reflect) are the reference; capacity after a growing append is adopted from the live object",
 					"numeric-string indices only as decimal numerals with a leading zero (accepted: error, or what the integer does); not generated: float/bool indices, reslice high bound in (len,cap], struct value copies, `in` on maps/strings, multi-byte string-position stores, int->string and nil->typed-slot stores",
@@ -3396,18 +3415,22 @@ func init() {
 					"struct shapes: script-made structs start with empty slice / map fields, host structs with nil ones; the struct type built by the model with reflect.StructOf is the type the script's make(struct{...}) yields; a random (non-fixed) history of a process-wide defect may need the earlier cases of its worker process to reproduce",
 					"kept out until /repo is repaired (C10-r4-genuine.md, c10PendingFix_StructFromElement): fields of a struct value read out of an untyped list / map element and bound to a name (fixed history 21); " +
 						"repaired in /repo and generated again (C10-genuine.md, the other c10PendingFix_* constants are false): a store at index len through a slice expression `a[i:j][len] = v`; `ns += [ts]` on a typed slice of slices; delete with an unusable key on a nil map; not generated: a nil inside a list appended to a typed slice, an empty list of an unappendable type",
+					c10R8Assumptions[0], c10R8Assumptions[1],
 				},
-				Phases: []fw.Phase{
+				Phases: append([]fw.Phase{
 					{Name: "fixed", Cases: len(c10Fixed), Chunk: len(c10Fixed), TimeoutS: 300},
 					{Name: "enum", Cases: c10EnumCases(), Chunk: 4, Exhaust: true, TimeoutS: 600},
 					{Name: "slots", Cases: c10SlotCases(), Chunk: 4, TimeoutS: 600},
 					{Name: "pass", Cases: c10PassCases(), Chunk: 6, TimeoutS: 600},
 					{Name: "random", Cases: nRand, Chunk: 250, TimeoutS: 900},
 					{Name: "conv", Cases: c10ConvCases(), Chunk: 5, TimeoutS: 600, MemMB: 3072, Jobs: 4},
-				},
+				}, c10R8Phases(tier)...),
 			}
 		},
 		Run: func(c *wk.Case) {
+			if c10R8Run(c) {
+				return // sizes, hot, stream: c10_r8.go
+			}
 			switch c.Phase {
 			case "fixed":
 				c10RunFixed(c)
